@@ -17,11 +17,21 @@ Case kinds (all run against the real code in-process):
            pre-LLM pauses and LLM latencies; the LLM records its attribute values at call time; the
            section boundaries are recorded through the public `register_param_manager` API.
 
+  ctx      single-turn requests with and without `options` (llm_params / output_vars / log) run as the program of
+           ONE asyncio task: awaited directly one after the other and in tasks spawned in between (they copy the
+           possibly polluted context); what `generation_options_var` holds at every LLM call is compared with the
+           model of generate_async's prologue (`Ctx.runProg prologueSet`), call-time temperature / max_tokens,
+           replies and prompts with the isolated replay (fresh instance, fresh task).  `serve` / `e2e` turns may
+           carry options too and the shared schedule runs inside one driver task, each request awaited inline or in
+           a task spawned from it (`inline` flags).  Static tie: every per-request context variable is set
+           unconditionally before the first await of generate_async (AST).
+
 Oracle (written from the property statement, not from the model): replies, prompts / events and call-time
 parameters equal the isolated replay; parameters equal the configured ones when idle.
 """
 import ast
 import asyncio
+import collections
 import contextlib
 import contextvars
 import copy
@@ -42,7 +52,8 @@ RULE = ("keypair: a random history and an adversarial variant (adjacent messages
         "transcripts that mimic another conversation's replies / contain the separator), random sequential interleaving on one "
         "instance vs isolated replays; params: 1-4 managers over 5 parameter names, schedules sequential / nested / randomly "
         "interleaved; conc: 2-4 concurrent single-turn requests with per-request temperature, start delay, pause and LLM latency "
-        "(some LLM calls fail); thorough additionally enumerates every interleaving of 3 managers x (enter, call, exit) (1680) and of "
+        "(some LLM calls fail); ctx: 2-5 single-turn requests, some with options, as a random program of one task (sequential awaits and nested spawn groups); "
+        "serve/e2e turns carry options with probability 0.15/0.3 and run inline in one driver task / in tasks spawned from it; thorough additionally enumerates every interleaving of 3 managers x (enter, call, exit) (1680) and of "
         "the turns of two conversations for six adversarial conversation shapes. non-trivial = at least two conversations/managers/requests and (for serve/e2e) at least one "
         "multi-message request, (keypair) the two histories differ; distinct = distinct case JSON.")
 TRUSTED_BASE = [
@@ -59,6 +70,7 @@ ASSUMPTIONS = [
 ]
 
 CONFIGURED_TEMP = 0.7
+CONFIGURED_MAX_TOKENS = 100
 PNAMES = ["temperature", "max_tokens", "top_p", "n", "presence_penalty"]
 
 UTILS = "nemoguardrails/rails/llm/utils.py"
@@ -95,9 +107,51 @@ def static_tie():
     src = ast.unparse(find_def(parse(RAILS), "generate_async", "LLMRails"))
     if "self.events_history_cache[cache_key] = events" not in src or "messages + [new_message]" not in src:
         problems.append("generate_async no longer writes events_history_cache[key(messages + [new_message])] = events")
+    problems += prologue_problems(find_def(parse(RAILS), "generate_async", "LLMRails"))
     src = ast.unparse(find_def(parse(RAILS), "_get_events_for_messages", "LLMRails"))
     if "self.events_history_cache[cache_key].copy()" not in src or "messages[0:p]" not in src:
         problems.append("_get_events_for_messages no longer looks up key(messages[0:p]) in events_history_cache")
+    return problems
+
+
+PER_REQUEST_VARS = ["generation_options_var", "llm_stats_var", "raw_llm_request"]
+
+
+def _is_set_of(node, var):
+    return (isinstance(node, ast.Expr) and isinstance(node.value, ast.Call) and isinstance(node.value.func, ast.Attribute)
+            and node.value.func.attr == "set" and isinstance(node.value.func.value, ast.Name) and node.value.func.value.id == var)
+
+
+def _definitely_sets(stmts, var):
+    """some statement of the block sets `var` on every path: a plain `var.set(..)` or an if/else whose both arms do"""
+    for st in stmts:
+        if _is_set_of(st, var):
+            return True
+        if isinstance(st, ast.If) and st.orelse and _definitely_sets(st.body, var) and _definitely_sets(st.orelse, var):
+            return True
+    return False
+
+
+def prologue_problems(fn):
+    """Model `Ctx.prologueSet` (theorem request_sets_its_own_options): generate_async stores the request's own value in
+    each per-request context variable UNCONDITIONALLY, before the first await (the actions that read the variables are
+    only reached through awaits) and before any read of the variable inside generate_async itself."""
+    problems = []
+    prologue = []
+    for st in fn.body:
+        if any(isinstance(n, ast.Await) for n in ast.walk(st)):
+            break
+        prologue.append(st)
+    for var in PER_REQUEST_VARS:
+        if not _definitely_sets(prologue, var):
+            problems.append(f"generate_async: `{var}.set(...)` is not executed unconditionally before the first await (a request can inherit the value left by an earlier request of the same asyncio context)")
+            continue
+        for st in prologue:
+            if _definitely_sets([st], var):
+                break
+            if any(isinstance(n, ast.Attribute) and n.attr == "get" and isinstance(n.value, ast.Name) and n.value.id == var for n in ast.walk(st)):
+                problems.append(f"generate_async reads `{var}` before setting it")
+                break
     return problems
 
 
@@ -138,7 +192,9 @@ def worker_init():
     from nemoguardrails import LLMRails, RailsConfig
     from nemoguardrails.embeddings.providers import register_embedding_provider
     from nemoguardrails.embeddings.providers.base import EmbeddingModel
+    from nemoguardrails import context as context_mod
     from nemoguardrails.llm import params as params_mod
+    from nemoguardrails.rails.llm.options import GenerationOptions
     from nemoguardrails.rails.llm import llmrails as rails_mod
     from nemoguardrails.rails.llm import utils as utils_mod
 
@@ -176,12 +232,12 @@ def worker_init():
             return "r" + hashlib.md5(prompt.encode()).hexdigest()[:4]
 
         def _call(self, prompt, stop=None, run_manager=None, **kw):
-            self.calls.append({"req": req_var.get(), "prompt": prompt, "temperature": self.temperature, "max_tokens": self.max_tokens})
+            self.calls.append({"req": req_var.get(), "prompt": prompt, "temperature": self.temperature, "max_tokens": self.max_tokens, "opts": canon_options(context_mod.generation_options_var.get())})
             return self._answer(prompt)
 
         async def _acall(self, prompt, stop=None, run_manager=None, **kw):
             r = req_var.get()
-            self.calls.append({"req": r, "prompt": prompt, "temperature": self.temperature, "max_tokens": self.max_tokens})
+            self.calls.append({"req": r, "prompt": prompt, "temperature": self.temperature, "max_tokens": self.max_tokens, "opts": canon_options(context_mod.generation_options_var.get())})
             d = self.lat.get(r, 0)
             if d:
                 await asyncio.sleep(d)
@@ -235,7 +291,7 @@ def worker_init():
     key_used = getattr(rails_mod, "get_events_history_cache_key", None)
     _ENV.update(
         LLMRails=LLMRails, RailsConfig=RailsConfig, PureLLM=PureLLM, req_var=req_var, sections=sections,
-        VirtualLoop=VirtualLoop, rails_mod=rails_mod, utils_mod=utils_mod, params_mod=params_mod,
+        VirtualLoop=VirtualLoop, GenerationOptions=GenerationOptions, rails_mod=rails_mod, utils_mod=utils_mod, params_mod=params_mod,
         key_asis=utils_mod.get_history_cache_key,
         key_used=key_used or rails_mod.get_history_cache_key,
         which="lp" if key_used is not None else "asis",
@@ -304,6 +360,42 @@ def run_coro(coro, virtual=False):
             loop.run_until_complete(loop.shutdown_asyncgens())
         loop.close()
         asyncio.set_event_loop(None)
+
+
+def canon_options(o):
+    """What of the generation options a request can observe: llm_params, output_vars, log flags (None = no options)."""
+    if o is None:
+        return None
+    if not isinstance(o, dict):
+        o = o.dict()
+    return json.dumps({"llm_params": o.get("llm_params") or {}, "output_vars": o.get("output_vars"), "log": o.get("log")}, sort_keys=True)
+
+
+def own_options(opts):
+    return None if not opts else canon_options(_ENV["GenerationOptions"](**opts))
+
+
+def eff_msgs(msgs, opts):
+    """The messages generate_async works with: the options travel as a leading context message."""
+    if not opts:
+        return msgs
+    return [{"role": "context", "content": {"generation_options": _ENV["GenerationOptions"](**opts).dict()}}] + msgs
+
+
+def expected_params(opts):
+    lp = (opts or {}).get("llm_params") or {}
+    return {"temperature": lp.get("temperature", CONFIGURED_TEMP), "max_tokens": lp.get("max_tokens", CONFIGURED_MAX_TOKENS)}
+
+
+OPTIONS = [
+    {"llm_params": {"temperature": 0.9}},
+    {"llm_params": {"temperature": 0.2}},
+    {"llm_params": {"max_tokens": 50}},
+    {"llm_params": {"temperature": 0.3, "max_tokens": 60}},
+    {"output_vars": True},
+    {"log": {"activated_rails": True}},
+    {"log": {"llm_calls": True}, "llm_params": {"temperature": 1.0}},
+]
 
 
 def canon_event(ev):
@@ -491,6 +583,54 @@ def first_user_text(turns):
     return None
 
 
+def add_options(rng, convs, prob):
+    """give some turns per-request generation options (llm_params / output_vars / log)"""
+    for turns in convs:
+        for turn in turns:
+            if rng.random() < prob:
+                turn["options"] = copy.deepcopy(rng.choice(OPTIONS))
+    return convs
+
+
+def g_inline(rng, order):
+    """which requests of the shared schedule are awaited directly in the driver task (1) / in a task spawned from it (0)"""
+    mode = rng.random()
+    if mode < 0.35:
+        return [0] * len(order)
+    if mode < 0.65:
+        return [1] * len(order)
+    return [rng.choice([0, 1]) for _ in order]
+
+
+def g_prog(rng, ids, depth=0):
+    """program of one task over the request ids: awaited requests and spawn groups (recursively)"""
+    items = []
+    ids = list(ids)
+    while ids:
+        if depth < 2 and len(ids) >= 2 and rng.random() < 0.35:
+            k = rng.randrange(1, min(3, len(ids)) + 1)
+            group, ids = ids[:k], ids[k:]
+            nchild = rng.choice([1, 2]) if len(group) > 1 else 1
+            children = [group[i::nchild] for i in range(nchild)]
+            items.append({"spawn": [g_prog(rng, ch, depth + 1) for ch in children if ch]})
+        else:
+            items.append({"req": ids.pop(0)})
+    return items
+
+
+def g_ctx_case(rng):
+    n = rng.choice([2, 3, 3, 4, 5])
+    reqs = []
+    for i in range(n):
+        r = rng.random()
+        opts = None if r < 0.45 else copy.deepcopy(rng.choice(OPTIONS))
+        reqs.append({"text": rng.choice(["a", "b", "hi", "a:b"]) + str(i), "options": opts})
+    if all(r["options"] is None for r in reqs) or all(r["options"] for r in reqs):
+        reqs[0]["options"] = copy.deepcopy(rng.choice(OPTIONS[:4]))
+        reqs[-1]["options"] = None
+    return {"kind": "ctx", "cfg": rng.choice(["general", "general", "dialog"]), "reqs": reqs, "prog": g_prog(rng, range(n))}
+
+
 def g_order(rng, convs):
     order = [c for c, ts in enumerate(convs) for _ in ts]
     mode = rng.random()
@@ -600,6 +740,7 @@ EXHAUSTIVE = {"quick": False, "thorough": True}
 
 def gen_cases(rng, tier):
     n_key, n_ev, n_serve, n_e2e, n_par, n_conc = (6000, 3000, 200, 50, 4000, 50) if tier == "quick" else (150000, 60000, 1500, 400, 100000, 400)
+    n_ctx = 60 if tier == "quick" else 500
     cases = []
     for _ in range(n_key):
         cases.append(g_keypair(rng))
@@ -608,11 +749,15 @@ def gen_cases(rng, tier):
     for _ in range(n_par):
         cases.append(g_params_case(rng))
     for _ in range(n_serve):
-        convs = g_convs(rng)
-        cases.append({"kind": "serve", "convs": convs, "order": g_order(rng, convs)})
+        convs = add_options(rng, g_convs(rng), 0.15)
+        order = g_order(rng, convs)
+        cases.append({"kind": "serve", "convs": convs, "order": order, "inline": g_inline(rng, order)})
     for _ in range(n_e2e):
-        convs = g_convs(rng, e2e=True)
-        cases.append({"kind": "e2e", "cfg": rng.choice(["general", "general", "dialog"]), "convs": convs, "order": g_order(rng, convs)})
+        convs = add_options(rng, g_convs(rng, e2e=True), 0.3)
+        order = g_order(rng, convs)
+        cases.append({"kind": "e2e", "cfg": rng.choice(["general", "general", "dialog"]), "convs": convs, "order": order, "inline": g_inline(rng, order)})
+    for _ in range(n_ctx):
+        cases.append(g_ctx_case(rng))
     for _ in range(n_conc):
         cases.append(g_conc_case(rng))
     cases += exhaustive_params(2)
@@ -636,6 +781,8 @@ def run_impl(case):
         return run_params(case)
     if k == "conc":
         return run_conc(case)
+    if k == "ctx":
+        return run_ctx(case)
     raise ValueError(k)
 
 
@@ -681,7 +828,7 @@ def resolve(content, iso):
         for p in content:
             if isinstance(p, dict):
                 c, t = p["reply"]
-                rep = iso[c][t]["reply"] if c < len(iso) and t < len(iso[c]) else None
+                rep = iso[c][t].get("reply") if c < len(iso) and t < len(iso[c]) else None
                 out.append(rep["content"] if rep and isinstance(rep.get("content"), str) else "?")
             else:
                 out.append(p)
@@ -713,33 +860,49 @@ def stub_turn(log):
         else:
             new = [{"type": "StartUtteranceBotAction", "script": "r" + h[:3]}, {"type": "Opaque", "n": int(h[6:8], 16)}]
         log.append({"events": canon, "new": canon_events(new)})
+        if processing_log is not None:  # what compute_generation_log needs when options are used
+            processing_log.append({"type": "event", "timestamp": 1.0, "data": {"type": "Opaque", "n": 0}})
+            processing_log.append({"type": "event", "timestamp": 2.0, "data": {"type": "Opaque", "n": 1}})
         return copy.deepcopy(new)
 
     return generate_events
 
 
-def serve_on(rails, llm, log, msgs, e2e):
+async def aserve_on(rails, llm, log, msgs, e2e, opts=None, rid=None):
     """One generate_async call; returns the step observation."""
+    if rid is not None:
+        _ENV["req_var"].set(rid)
     n0 = len(llm.calls)
     l0 = len(log)
-
-    async def go():
-        return await rails.generate_async(messages=copy.deepcopy(msgs))
-
+    eff = eff_msgs(msgs, opts)
     try:
-        reply = run_coro(go())
+        res = await rails.generate_async(messages=copy.deepcopy(msgs), options=copy.deepcopy(opts) if opts else None)
     except Exception as e:  # noqa
-        return {"req": msgs, "exc": type(e).__name__ + ": " + str(e)[:120]}
-    st = {"req": msgs, "reply": reply}
+        return {"req": msgs, "eff": eff, "opts": opts, "exc": type(e).__name__ + ": " + str(e)[:120]}
+    extra = None
+    if opts:
+        reply = res.response[0] if isinstance(res.response, list) else {"role": "assistant", "content": res.response}
+        extra = {"output_keys": sorted(res.output_data) if isinstance(res.output_data, dict) else None,
+                 "rails": [r.name for r in res.log.activated_rails] if res.log and res.log.activated_rails else None}
+    else:
+        reply = res
+    st = {"req": msgs, "eff": eff, "opts": opts, "reply": reply, "extra": extra}
+    mine = [c for c in llm.calls[n0:] if rid is None or c["req"] == rid]
     if e2e:
-        st["prompts"] = [c["prompt"] for c in llm.calls[n0:]]
-        st["temps"] = [c["temperature"] for c in llm.calls[n0:]]
+        st["prompts"] = [c["prompt"] for c in mine]
+        st["temps"] = [c["temperature"] for c in mine]
+        st["maxtoks"] = [c["max_tokens"] for c in mine]
+        st["opts_seen"] = [c["opts"] for c in mine]
     else:
         if len(log) == l0 + 1:
             st["events"], st["new"] = log[-1]["events"], log[-1]["new"]
         else:
             st["events"], st["new"] = None, None
     return st
+
+
+def serve_on(rails, llm, log, msgs, e2e, opts=None):
+    return run_coro(aserve_on(rails, llm, log, msgs, e2e, opts))
 
 
 def run_convs(case):
@@ -765,48 +928,58 @@ def run_convs(case):
                 msgs = resolve_msgs(turn.get("full") or turn.get("new"), iso + [steps])
             else:
                 msgs = prev["req"] + [prev["reply"]] + resolve_msgs(turn["new"], iso + [steps])
-            st = serve_on(rails, llm, log, msgs, e2e)
+            st = serve_on(rails, llm, log, msgs, e2e, turn.get("options"))  # every isolated request in its own fresh task
             steps.append(st)
             if "exc" in st:
                 break
             prev = st
         iso.append(steps)
-    # shared instance
+    # shared instance: ONE driver task; a request is awaited directly in it (inline) or in a task spawned from it
     rails, llm, log = fresh()
-    pos = [0] * len(convs)
-    prevs = [None] * len(convs)
-    dead = set()
-    shared = []
-    writers = {}  # ground truth: cache key -> (conversation, history) of the last writer
-    hits = []
-    for c in case["order"]:
-        if c in dead or pos[c] >= len(convs[c]):
-            continue
-        turn = convs[c][pos[c]]
-        if "full" in turn or prevs[c] is None:
-            msgs = resolve_msgs(turn.get("full") or turn.get("new"), iso)
-        else:
-            msgs = prevs[c]["req"] + [prevs[c]["reply"]] + resolve_msgs(turn["new"], iso)
-        # which entry will the lookup hit? (ground truth kept by the harness, independent of the code under test)
-        hit = None
-        for p in range(len(msgs) - 1, 0, -1):
-            kk = E["key_used"](msgs[:p])
-            if kk in rails.events_history_cache:
-                w = writers.get(kk)
-                hit = {"p": p, "writer": w[0] if w else None, "genuine": bool(w) and pairs(w[1]) == pairs(msgs[:p])}
-                break
-        st = serve_on(rails, llm, log, msgs, e2e)
-        st["conv"], st["turn"], st["hit"] = c, pos[c], hit
-        st["pkeys"] = [E["key_used"](msgs[:p]) for p in range(1, len(msgs))]
-        shared.append(st)
-        if "exc" in st:
-            dead.add(c)
-            continue
-        st["hkey"] = E["key_used"](msgs + [st["reply"]])
-        writers[st["hkey"]] = (c, msgs + [st["reply"]])
-        prevs[c] = st
-        pos[c] += 1
-    return {"which": E["which"], "iso": iso, "shared": shared, "final_temp": llm.temperature}
+    inline = case.get("inline") or []
+
+    async def shared_run():
+        pos = [0] * len(convs)
+        prevs = [None] * len(convs)
+        dead = set()
+        shared = []
+        writers = {}  # ground truth: cache key -> (conversation, history) of the last writer
+        for k, c in enumerate(case["order"]):
+            if c in dead or pos[c] >= len(convs[c]):
+                continue
+            turn = convs[c][pos[c]]
+            if "full" in turn or prevs[c] is None:
+                msgs = resolve_msgs(turn.get("full") or turn.get("new"), iso)
+            else:
+                msgs = prevs[c]["req"] + [prevs[c]["reply"]] + resolve_msgs(turn["new"], iso)
+            opts = turn.get("options")
+            eff = eff_msgs(msgs, opts)
+            # which entry will the lookup hit? (ground truth kept by the harness, independent of the code under test)
+            hit = None
+            for p in range(len(eff) - 1, 0, -1):
+                kk = E["key_used"](eff[:p])
+                if kk in rails.events_history_cache:
+                    w = writers.get(kk)
+                    hit = {"p": p, "writer": w[0] if w else None, "genuine": bool(w) and pairs(w[1]) == pairs(eff[:p])}
+                    break
+            if k < len(inline) and inline[k]:
+                st = await aserve_on(rails, llm, log, msgs, e2e, opts)
+            else:
+                st = await asyncio.ensure_future(aserve_on(rails, llm, log, msgs, e2e, opts))
+            st["conv"], st["turn"], st["hit"], st["inline"] = c, pos[c], hit, bool(k < len(inline) and inline[k])
+            st["pkeys"] = [E["key_used"](eff[:p]) for p in range(1, len(eff))]
+            shared.append(st)
+            if "exc" in st:
+                dead.add(c)
+                continue
+            st["hkey"] = E["key_used"](eff + [st["reply"]])
+            writers[st["hkey"]] = (c, eff + [st["reply"]])
+            prevs[c] = st
+            pos[c] += 1
+        return shared
+
+    shared = run_coro(shared_run())
+    return {"which": E["which"], "iso": iso, "shared": shared, "final_temp": llm.temperature, "final_maxtok": llm.max_tokens}
 
 
 def run_params(case):
@@ -906,10 +1079,69 @@ def run_conc(case):
     return {"iso": iso, "shared": shared, "final_temp": llm.temperature, "sections": [list(s) for s in E["sections"]]}
 
 
+def prog_ids(prog):
+    for it in prog:
+        if "spawn" in it:
+            for ch in it["spawn"]:
+                yield from prog_ids(ch)
+        else:
+            yield it["req"]
+
+
+def run_ctx(case):
+    """Single-turn requests with and without options, run as the program of ONE task (awaited directly / in spawn groups)."""
+    reqs = case["reqs"]
+    cfg = case.get("cfg", "general")
+    iso = []
+    for i, r in enumerate(reqs):
+        rails, llm = new_rails(cfg)
+        st = run_coro(aserve_on(rails, llm, [], [{"role": "user", "content": r["text"]}], True, r["options"], rid=i), virtual=True)
+        st["final"] = [llm.temperature, llm.max_tokens]
+        iso.append(st)
+    rails, llm = new_rails(cfg)
+    del _ENV["sections"][:]
+    out = {}
+
+    async def run_items(items, delay=0):
+        if delay:
+            await asyncio.sleep(delay)
+        for it in items:
+            if "spawn" in it:
+                # children are staggered so that their LLM sections do not overlap (that would be another finding)
+                tasks = [asyncio.ensure_future(run_items(ch, 10 * (j + 1))) for j, ch in enumerate(it["spawn"])]
+                await asyncio.gather(*tasks)
+            else:
+                i = it["req"]
+                out[i] = await aserve_on(rails, llm, [], [{"role": "user", "content": reqs[i]["text"]}], True, reqs[i]["options"], rid=i)
+
+    run_coro(run_items(case["prog"]), virtual=True)
+    return {"iso": iso, "shared": [out.get(i) for i in range(len(reqs))], "final": [llm.temperature, llm.max_tokens],
+            "sections": [list(x) for x in _ENV["sections"]], "own": [own_options(r["options"]) for r in reqs]}
+
+
 # ----------------------------------------------------------------------------- model
 
+def _opt_index(obs, canon):
+    """index of an options value among the requests' own values (None = no options; -1 = foreign value)"""
+    if canon is None:
+        return None
+    return obs["own"].index(canon) if canon in obs["own"] else 999
+
+
+def _prog_json(prog, obs):
+    out = []
+    for it in prog:
+        if "spawn" in it:
+            out.append({"spawn": [_prog_json(ch, obs) for ch in it["spawn"]]})
+        else:
+            i = it["req"]
+            st = obs["shared"][i]
+            out.append({"req": i, "own": _opt_index(obs, obs["own"][i]), "reads": len(st.get("opts_seen") or []) if st else 0})
+    return out
+
+
 def _sched_pairs(steps):
-    return [[st["conv"], pairs(st["req"])] for st in steps]
+    return [[st["conv"], pairs(st["eff"])] for st in steps]
 
 
 def reply_pair(reply):
@@ -946,8 +1178,12 @@ def model_requests(case, obs):
         tbl = turn_table(obs)
         reqs = [{"m": "C15.serve", "which": obs["which"], "turn": tbl, "sched": _sched_pairs(obs["shared"])}]
         for c, steps in enumerate(obs["iso"]):
-            reqs.append({"m": "C15.serve", "which": obs["which"], "turn": tbl, "sched": [[c, pairs(st["req"])] for st in steps]})
+            reqs.append({"m": "C15.serve", "which": obs["which"], "turn": tbl, "sched": [[c, pairs(st["eff"])] for st in steps]})
         return reqs
+    if k == "ctx":
+        if any(st is None for st in obs["shared"]):
+            return []
+        return [{"m": "C15.ctxprog", "which": "set", "prog": _prog_json(case["prog"], obs)}]
     if k == "params":
         if "exc" in obs:
             return []
@@ -1007,6 +1243,16 @@ def compare(case, obs, mouts):
             if d:
                 return d
         return None
+    if k == "ctx":
+        # what every LLM call of a request found in generation_options_var vs the model of the prologue
+        exp = collections.defaultdict(list)
+        for rid, own, read in mouts[0]["log"]:
+            exp[rid].append(read)
+        for i, st in enumerate(obs["shared"]):
+            got = [_opt_index(obs, c) for c in (st.get("opts_seen") or [])]
+            if got != exp.get(i, []):
+                return f"request {i}: generation options seen by its LLM calls {got} (index of the owning request), model of the prologue says {exp.get(i, [])}"
+        return None
     if k == "params":
         m = mouts[0]
         if m["calls"] != obs["calls"]:
@@ -1046,9 +1292,11 @@ def _nested(sched):
 def _step_view(st, e2e):
     if "exc" in st:
         return {"exc": st["exc"]}
-    v = {"reply": st["reply"]}
+    v = {"reply": st["reply"], "extra": st.get("extra")}
     if e2e:
         v["prompts"] = st["prompts"]
+        v["temps"] = st["temps"]
+        v["maxtoks"] = st["maxtoks"]
     else:
         v["events"] = st["events"]
     return v
@@ -1100,8 +1348,16 @@ def oracle(case, obs):
             if a != b:
                 what = [f for f in a if a.get(f) != b.get(f)] + [f for f in b if f not in a]
                 return f"conversation {c} turn {t} on the shared instance differs from its isolated replay in {sorted(set(what))}: shared {json.dumps(a)[:400]} isolated {json.dumps(b)[:400]}"
-        if obs["final_temp"] != CONFIGURED_TEMP:
-            return f"idle LLM temperature {obs['final_temp']} != configured {CONFIGURED_TEMP}"
+        if e2e and case.get("cfg", "general") == "general":  # (the dialog tasks run at their own configured lowest_temperature)
+            for st in obs["shared"]:
+                if "exc" in st:
+                    continue
+                exp = expected_params(st.get("opts"))
+                for t, m in zip(st["temps"], st["maxtoks"]):
+                    if t != exp["temperature"] or m != exp["max_tokens"]:
+                        return f"conversation {st['conv']} turn {st['turn']}: LLM call ran with temperature={t}, max_tokens={m} instead of its own {exp}"
+        if obs["final_temp"] != CONFIGURED_TEMP or obs.get("final_maxtok", CONFIGURED_MAX_TOKENS) != CONFIGURED_MAX_TOKENS:
+            return f"idle LLM temperature {obs['final_temp']} / max_tokens {obs.get('final_maxtok')} != configured {CONFIGURED_TEMP} / {CONFIGURED_MAX_TOKENS}"
         return None
     if k == "params":
         if "exc" in obs:
@@ -1121,6 +1377,22 @@ def oracle(case, obs):
                 exp = (case["kw"] or {}).get(str(i), "absent")
                 if v != exp:
                     return f"idle: model_kwargs[{PNAMES[i]}]={v!r}, configured {exp!r}"
+        return None
+    if k == "ctx":
+        for i, (st, ref, r) in enumerate(zip(obs["shared"], obs["iso"], case["reqs"])):
+            if st is None:
+                return f"request {i} was not served"
+            exp = expected_params(r["options"])
+            if "exc" not in st and case.get("cfg", "general") == "general":
+                for t, m in zip(st["temps"], st["maxtoks"]):
+                    if t != exp["temperature"] or m != exp["max_tokens"]:
+                        return f"request {i} (options {r['options']}): LLM call ran with temperature={t}, max_tokens={m} instead of its own {exp}"
+            a, b = _step_view(st, True), _step_view(ref, True)
+            if a != b:
+                what = sorted({f for f in set(a) | set(b) if a.get(f) != b.get(f)})
+                return f"request {i} served in the shared task differs from its isolated replay in {what}: {json.dumps(a)[:300]} vs {json.dumps(b)[:300]}"
+        if obs["final"] != [CONFIGURED_TEMP, CONFIGURED_MAX_TOKENS]:
+            return f"no request in flight, LLM (temperature, max_tokens) = {obs['final']} instead of the configured ones"
         return None
     if k == "conc":
         for i, (s, ref, r) in enumerate(zip(obs["shared"], obs["iso"], case["reqs"])):
@@ -1193,6 +1465,8 @@ def signature(case, obs, msg):
         if not all_present(case):
             return "absent-param-left-as-none"
         return None
+    if k == "ctx":
+        return "overlapping-llm-params-sections" if _sections_overlap(obs.get("sections", [])) else None
     if k == "conc":
         if " alone: " in (msg or ""):
             return None  # a single request cannot overlap with anything
@@ -1202,14 +1476,14 @@ def signature(case, obs, msg):
 
 def _evicted(case, obs, st):
     """The isolated replay hit an own entry that on the shared instance was overwritten under a colliding key."""
-    msgs = st["req"]
+    msgs = st["eff"]
     for p, kp in zip(range(1, len(msgs)), st.get("pkeys") or []):
         for o in obs["shared"]:
             if o is st:
                 break
             if "exc" in o or "hkey" not in o:
                 continue
-            h = o["req"] + [o["reply"]]
+            h = o["eff"] + [o["reply"]]
             if o["hkey"] == kp and pairs(h) != pairs(msgs[:p]):
                 return "history-cache-key-collision"
     return None
@@ -1227,6 +1501,8 @@ def nontrivial(case, obs):
         return len(case["managers"]) >= 2
     if k == "conc":
         return len(case["reqs"]) >= 2
+    if k == "ctx":
+        return len(case["reqs"]) >= 2 and any(r["options"] for r in case["reqs"]) and any(not r["options"] for r in case["reqs"])
     return False
 
 
@@ -1260,10 +1536,29 @@ def tags(case, obs):
             t.append(k + "-exception-reply")
         if k == "e2e":
             t.append("cfg:" + case.get("cfg", "general"))
+        if any(st.get("opts") for st in obs["shared"]):
+            t.append(k + "-with-options")
+        inl = [st.get("inline") for st in obs["shared"]]
+        t.append(k + ("-one-task" if all(inl) else "-own-tasks" if not any(inl) else "-mixed-tasks"))
     elif k == "params":
         t.append("mode:" + case["mode"])
         t.append("nested" if _nested(case["sched"]) else "overlapping")
         t.append("all-present" if all_present(case) else "some-absent")
+    elif k == "ctx":
+        t.append("ctx-reqs:" + str(len(case["reqs"])))
+        flat = json.dumps(case["prog"])
+        t.append("ctx-spawn" if "spawn" in flat else "ctx-sequential")
+        ids = list(prog_ids(case["prog"]))
+        # an options-less request served after an options-carrying one in the same task history
+        seen_opt = False
+        for i in ids:
+            if case["reqs"][i]["options"]:
+                seen_opt = True
+            elif seen_opt:
+                t.append("ctx-no-options-after-options")
+                break
+        if _sections_overlap(obs.get("sections", [])):
+            t.append("ctx-sections-overlap")
     elif k == "conc":
         t.append("conc-mode:" + case["mode"])
         t.append("conc-overlap" if _sections_overlap(obs.get("sections", [])) else "conc-disjoint")
@@ -1293,19 +1588,29 @@ def shrink(case):
             # dropping a conversation is only sound if no later one refers to it
             if '"reply": [' in json.dumps(convs[c + 1:]):
                 continue
-            order = [o - (1 if o > c else 0) for o in case["order"] if o != c]
-            yield dict(case, convs=convs[:c] + convs[c + 1:], order=order)
+            inl = list(case.get("inline") or []) + [0] * len(case["order"])
+            keep = [(o - (1 if o > c else 0), f) for o, f in zip(case["order"], inl) if o != c]
+            yield dict(case, convs=convs[:c] + convs[c + 1:], order=[o for o, _ in keep], inline=[f for _, f in keep])
         for c in range(len(convs)):
             if len(convs[c]) > 1:
                 nc = copy.deepcopy(convs)
                 nc[c] = nc[c][:-1]
                 order = list(case["order"])
+                inl = (list(case.get("inline") or []) + [0] * len(order))[: len(order)]
                 for i in range(len(order) - 1, -1, -1):
                     if order[i] == c:
                         del order[i]
+                        del inl[i]
                         break
-                yield dict(case, convs=nc, order=order)
-        yield dict(case, order=sorted(case["order"]))
+                yield dict(case, convs=nc, order=order, inline=inl)
+        if case.get("inline") and not all(case["inline"]):
+            yield dict(case, inline=[1] * len(case["order"]))
+        for c in range(len(convs)):
+            for t in range(len(convs[c])):
+                if "options" in convs[c][t]:
+                    nc = copy.deepcopy(convs)
+                    del nc[c][t]["options"]
+                    yield dict(case, convs=nc)
     elif k == "params":
         for m in range(len(case["managers"])):
             ms = case["managers"][:m] + case["managers"][m + 1:]
@@ -1318,3 +1623,23 @@ def shrink(case):
         for i in range(len(case["reqs"])):
             if len(case["reqs"]) > 1:
                 yield dict(case, reqs=case["reqs"][:i] + case["reqs"][i + 1:])
+    elif k == "ctx":
+        def drop(prog, i):
+            out = []
+            for it in prog:
+                if "spawn" in it:
+                    ch = [c for c in (drop(c, i) for c in it["spawn"]) if c]
+                    if ch:
+                        out.append({"spawn": ch})
+                elif it["req"] != i:
+                    out.append({"req": it["req"] - (1 if it["req"] > i else 0)})
+            return out
+
+        for i in range(len(case["reqs"])):
+            if len(case["reqs"]) > 1:
+                yield dict(case, reqs=case["reqs"][:i] + case["reqs"][i + 1:], prog=drop(case["prog"], i))
+        flat = [{"req": i} for i in prog_ids(case["prog"])]
+        if flat != case["prog"]:
+            yield dict(case, prog=flat)
+        if case.get("cfg") != "general":
+            yield dict(case, cfg="general")
